@@ -1609,14 +1609,15 @@ def strict_ok(y):
 
 def brng_keys(lib, seed_octet, level):
     """deterministic bign key pair of the given level from a brngCTR tape (the library's own generator as gen_i)"""
-    name = {128: "1.2.112.0.2.0.34.101.45.3.1", 192: "1.2.112.0.2.0.34.101.45.3.2", 256: "1.2.112.0.2.0.34.101.45.3.3"}[level]
+    name = {96: "1.2.112.0.2.0.34.101.45.3.0", 128: "1.2.112.0.2.0.34.101.45.3.1", 192: "1.2.112.0.2.0.34.101.45.3.2",
+            256: "1.2.112.0.2.0.34.101.45.3.3"}[level]
     ps = lib.alloc(336)
-    if lib.bignParamsStd(ps, lib.cstr(name)):
+    if (lib.bign96ParamsStd if level == 96 else lib.bignParamsStd)(ps, lib.cstr(name)):
         raise Harness("bignParamsStd failed")
     st = lib.alloc(lib.brngCTR_keep())
     lib.brngCTRStart(st, lib.mk(bytes([seed_octet]) * 32), lib.mk(bytes(32)))
     priv, pub = lib.alloc(level // 4), lib.alloc(level // 2)
-    if lib.bignKeypairGen(priv, pub, ps, lib.addr("brngCTRStepR"), st):
+    if (lib.bign96KeypairGen if level == 96 else lib.bignKeypairGen)(priv, pub, ps, lib.addr("brngCTRStepR"), st):
         raise Harness("bignKeypairGen failed")
     out = lib.rd(priv, level // 4), lib.rd(pub, level // 2)
     lib.release()
@@ -1855,7 +1856,8 @@ def cvc_make(lib, level, seed_octet, eid, esign, names=(b"BYCA0000", b"BYCA0000"
     return out
 
 
-CVC_SAMPLES = [(128, 0x11, (0xEE,) * 5, (0x77, 0x01)), (128, 0x12, (0,) * 5, (0, 0)), (192, 0x13, (1, 0, 0, 0, 0), (0, 0)), (256, 0x14, (0,) * 5, (0, 0x80))]
+CVC_SAMPLES = [(128, 0x11, (0xEE,) * 5, (0x77, 0x01)), (128, 0x12, (0,) * 5, (0, 0)), (192, 0x13, (1, 0, 0, 0, 0), (0, 0)), (256, 0x14, (0,) * 5, (0, 0x80)),
+               (96, 0x15, (0, 0, 0, 0, 2), (0x10, 0))]          # 24-octet (bign96) key: the signature is 34 octets, not 36
 
 
 def unit_cvc(ctx):
